@@ -58,9 +58,6 @@ func ByteStreamConsumer(opts ...byteStreamOpt) Consumer {
 		if reader == nil {
 			return errors.New("ByteStreamConsumer requires a reader") // early exit
 		}
-		if data == nil {
-			return errors.New("nil destination for ByteStreamConsumer")
-		}
 
 		closer := defaultCloser
 		if vals.Close {
@@ -71,6 +68,10 @@ func ByteStreamConsumer(opts ...byteStreamOpt) Consumer {
 		defer func() {
 			_ = closer()
 		}()
+
+		if data == nil {
+			return errors.New("nil destination for ByteStreamConsumer")
+		}
 
 		if readerFrom, isReaderFrom := data.(io.ReaderFrom); isReaderFrom {
 			_, err := readerFrom.ReadFrom(reader)
@@ -149,11 +150,13 @@ func ByteStreamProducer(opts ...byteStreamOpt) Producer {
 	}
 
 	return ProducerFunc(func(writer io.Writer, data interface{}) error {
+		// a closable payload is closed and, when requested, so is the stream, even when the call is rejected
+		if rc, isDataCloser := data.(io.ReadCloser); isDataCloser {
+			defer rc.Close()
+		}
+
 		if writer == nil {
 			return errors.New("ByteStreamProducer requires a writer") // early exit
-		}
-		if data == nil {
-			return errors.New("nil data for ByteStreamProducer")
 		}
 
 		closer := defaultCloser
@@ -166,8 +169,8 @@ func ByteStreamProducer(opts ...byteStreamOpt) Producer {
 			_ = closer()
 		}()
 
-		if rc, isDataCloser := data.(io.ReadCloser); isDataCloser {
-			defer rc.Close()
+		if data == nil {
+			return errors.New("nil data for ByteStreamProducer")
 		}
 
 		switch origin := data.(type) {
